@@ -189,6 +189,9 @@ def lattice_vectors(W):
 # point location
 # --------------------------------------------------------------------------
 
+NO_ELEMENT = -(2 ** 40)
+
+
 class Located:
     """Result of locating an array of points."""
 
@@ -360,22 +363,27 @@ class Locator:
         ranges = [tuple(r) for r in fill['ranges']]
         return leaves, W, C, A, ranges
 
-    def _locate_lattice(self, c, P, idx, chain, out, depth):
+    def _lattice_indices(self, c, Pa):
+        """Element indices of points Pa (lattice frame): returns
+        (ind[N, ndim], undecided[N], A[ndim, 3], ranges)."""
         if c['lat'] == 2:
             from . import mhex
-            return mhex.locate_hex(self, c, P, idx, chain, out, depth)
+            return mhex.hex_indices(self, c, Pa)
         leaves, W, C, A, ranges = self.lattice_info(c)
-        T = self.cell_trcl(c)
-        Pa = T.to_aux(P) if T is not None else P
         s = Pa @ W.T - C
         fl = np.floor(s)
         frac = s - fl
         # undecided if a pair coordinate is too close to an integer
         scale = np.abs(Pa) @ np.abs(W.T) + np.abs(C) + 1.0
         near = np.minimum(frac, 1.0 - frac) < mgeom.REL_TOL * scale
-        out.undec[idx[np.any(near, axis=1)]] = True
-        ind = fl.astype(np.int64)
-        ndim = W.shape[0]
+        return fl.astype(np.int64), np.any(near, axis=1), A, ranges
+
+    def _locate_lattice(self, c, P, idx, chain, out, depth):
+        T = self.cell_trcl(c)
+        Pa = T.to_aux(P) if T is not None else P
+        ind, near, A, ranges = self._lattice_indices(c, Pa)
+        out.undec[idx[near]] = True
+        ndim = A.shape[0]
         # pad indices to the number of declared ranges
         nr = len(ranges)
         if nr < ndim:
@@ -389,6 +397,8 @@ class Locator:
         inv = np.asarray(inv).reshape(-1)
         for k, tup in enumerate(uniq):
             sel = np.nonzero(inv == k)[0]
+            if tup[0] == NO_ELEMENT:
+                continue
             full_idx = tuple(int(t) for t in tup) + (0,) * (nr - ndim)
             # outside the declared ranges: nothing is generated
             inside = all(ranges[q][0] <= full_idx[q] <= ranges[q][1]
